@@ -36,7 +36,7 @@ func init() {
 	fw.Register(&fw.Property{
 		ID:    "C20",
 		Level: "exploration",
-		Rule: "cases per adapter: (a) pubsubcoreapi over a SCRIPTED coreiface.PubSubAPI: the i-th Peers call returns the i-th of 5-30 PRNG membership sets (including swaps that keep the size equal and empty sets); scripted subscription streams mixing own and foreign senders with payloads 0 B - 64 KiB; (b) oneonone: two channel sets over one in-memory pubsub hub (which, like real pubsub, echoes a peer its own messages), both Connect, payloads with unique ids sent from both ends in a PRNG interleaving, also with concurrent Connect calls; (c) directchannel over in-memory libp2p (mocknet) hosts: payload sizes {0, 1, 1 KiB, 4 MiB-1, 4 MiB, 4 MiB+1, 6 MiB} and PRNG sizes, concurrent senders, in every second case over streams that hand each write to the transport in PRNG pieces of 1 B - 64 KiB (a stream has no message boundaries); (d) pubsubraw over real go-libp2p-pubsub on mocknet. " +
+		Rule: "cases per adapter: (a) pubsubcoreapi over a SCRIPTED coreiface.PubSubAPI: the i-th Peers call returns the i-th of 5-30 PRNG membership sets (including swaps that keep the size equal and empty sets); scripted subscription streams mixing own and foreign senders with payloads 0 B - 64 KiB; (b) oneonone: two channel sets over one in-memory pubsub hub (which, like real pubsub, echoes a peer its own messages), both Connect, payloads with unique ids sent from both ends in a PRNG interleaving, also with concurrent Connect calls, and in two cases of three A's Connect context ends (its store is closed) and A connects again with a new one, twice, with a further exchange each time; (c) directchannel over in-memory libp2p (mocknet) hosts: payload sizes {0, 1, 1 KiB, 4 MiB-1, 4 MiB, 4 MiB+1, 6 MiB} and PRNG sizes, concurrent senders, in every second case over streams that hand each write to the transport in PRNG pieces of 1 B - 64 KiB (a stream has no message boundaries); (d) pubsubraw over real go-libp2p-pubsub on mocknet. " +
 			"distinct = hash(adapter, script); non-trivial = adapter (a): >= 3 membership changes incl. a leave; (b),(c),(d): >= 5 payloads delivered and the closing marker payload arrived",
 		Assumptions: []string{"scripted coreiface.PubSubAPI / in-memory hub / mocknet stand in for the network", "loss is decided only after a marker payload sent afterwards on the same path has arrived and the counts are stable (marker never arriving => inconclusive)"},
 		Cases:       c20Cases,
@@ -558,6 +558,8 @@ func c20OneOnOne(c fw.Case) fw.Verdict {
 	defer chA.Close()
 	defer chB.Close()
 	var wg sync.WaitGroup
+	ctxA, cancelA := context.WithCancel(ctx)
+	defer func() { cancelA() }()
 	nconn := 1
 	if concurrentConnect {
 		nconn = 3 // several stores shared with one peer connect at the same time
@@ -565,7 +567,7 @@ func c20OneOnOne(c fw.Case) fw.Verdict {
 	errs := make(chan error, 8)
 	for i := 0; i < nconn; i++ {
 		wg.Add(2)
-		go func() { defer wg.Done(); errs <- chA.Connect(ctx, idB) }()
+		go func() { defer wg.Done(); errs <- chA.Connect(ctxA, idB) }()
 		go func() { defer wg.Done(); errs <- chB.Connect(ctx, idA) }()
 	}
 	wg.Wait()
@@ -586,51 +588,79 @@ func c20OneOnOne(c fw.Case) fw.Verdict {
 			}
 		}
 	}
-	n := 10 + rng.Intn(40)
 	var sentA, sentB [][]byte
-	for i := 0; i < n; i++ {
-		size := rng.Intn(200)
-		if rng.Intn(10) == 0 {
-			size = rng.Intn(1 << 20)
-		}
-		if rng.Intn(2) == 0 {
-			p := uniquePayload(rng, "A", i, size)
-			sentA = append(sentA, p)
-			if err := chA.Send(ctx, idB, p); err != nil {
-				return fw.Verdict{Status: fw.Inconclusive, What: "send: " + err.Error()}
+	exchange := func(round int) *fw.Verdict {
+		n := 10 + rng.Intn(40)
+		for i := 0; i < n; i++ {
+			size := rng.Intn(200)
+			if rng.Intn(10) == 0 {
+				size = rng.Intn(1 << 20)
 			}
-		} else {
-			p := uniquePayload(rng, "B", i, size)
-			sentB = append(sentB, p)
-			if err := chB.Send(ctx, idA, p); err != nil {
-				return fw.Verdict{Status: fw.Inconclusive, What: "send: " + err.Error()}
-			}
-		}
-	}
-	// markers
-	mA, mB := []byte("marker-from-A"), []byte("marker-from-B")
-	sentA, sentB = append(sentA, mA), append(sentB, mB)
-	_ = chA.Send(ctx, idB, mA)
-	_ = chB.Send(ctx, idA, mB)
-	okA := waitStable(func() int { return len(emA.snapshot()) }, len(sentB), 20*time.Second)
-	okB := waitStable(func() int { return len(emB.snapshot()) }, len(sentA), 20*time.Second)
-	has := func(got []iface.EventPubSubPayload, m []byte) bool {
-		for _, g := range got {
-			if bytes.Equal(g.Payload, m) {
-				return true
+			if rng.Intn(2) == 0 {
+				p := uniquePayload(rng, fmt.Sprintf("A%d", round), i, size)
+				sentA = append(sentA, p)
+				if err := chA.Send(ctx, idB, p); err != nil {
+					return &fw.Verdict{Status: fw.Inconclusive, What: "send: " + err.Error()}
+				}
+			} else {
+				p := uniquePayload(rng, fmt.Sprintf("B%d", round), i, size)
+				sentB = append(sentB, p)
+				if err := chB.Send(ctx, idA, p); err != nil {
+					return &fw.Verdict{Status: fw.Inconclusive, What: "send: " + err.Error()}
+				}
 			}
 		}
-		return false
+		// markers
+		mA, mB := []byte(fmt.Sprintf("marker-from-A-%d", round)), []byte(fmt.Sprintf("marker-from-B-%d", round))
+		sentA, sentB = append(sentA, mA), append(sentB, mB)
+		_ = chA.Send(ctx, idB, mA)
+		_ = chB.Send(ctx, idA, mB)
+		okA := waitStable(func() int { return len(emA.snapshot()) }, len(sentB), 20*time.Second)
+		okB := waitStable(func() int { return len(emB.snapshot()) }, len(sentA), 20*time.Second)
+		has := func(got []iface.EventPubSubPayload, m []byte) bool {
+			for _, g := range got {
+				if bytes.Equal(g.Payload, m) {
+					return true
+				}
+			}
+			return false
+		}
+		if !has(emA.snapshot(), mB) || !has(emB.snapshot(), mA) {
+			if round > 0 {
+				return &fw.Verdict{Status: fw.Violated, Key: "payload-lost-after-reconnect/oneonone", NonTrivial: true,
+					What: fmt.Sprintf("after the context of A's first Connect ended (its store was closed) and A connected again, payloads sent afterwards never arrive (A got %d of %d, B got %d of %d)", len(emA.snapshot()), len(sentB), len(emB.snapshot()), len(sentA))}
+			}
+			return &fw.Verdict{Status: fw.Inconclusive, What: fmt.Sprintf("closing marker did not arrive (stable=%v/%v)", okA, okB)}
+		}
+		if vio := checkDelivery("A", emA.snapshot(), sentB, idB, idA); vio != nil {
+			return &fw.Verdict{Status: fw.Violated, Key: vio.Key + "/oneonone", What: vio.What + fmt.Sprintf(" (concurrent Connect calls: %v, round %d)", concurrentConnect, round), NonTrivial: true}
+		}
+		if vio := checkDelivery("B", emB.snapshot(), sentA, idA, idB); vio != nil {
+			return &fw.Verdict{Status: fw.Violated, Key: vio.Key + "/oneonone", What: vio.What + fmt.Sprintf(" (concurrent Connect calls: %v, round %d)", concurrentConnect, round), NonTrivial: true}
+		}
+		return nil
 	}
-	if !has(emA.snapshot(), mB) || !has(emB.snapshot(), mA) {
-		return fw.Verdict{Status: fw.Inconclusive, What: fmt.Sprintf("closing marker did not arrive (stable=%v/%v)", okA, okB)}
+	if bad := exchange(0); bad != nil {
+		return *bad
 	}
-	if vio := checkDelivery("A", emA.snapshot(), sentB, idB, idA); vio != nil {
-		return fw.Verdict{Status: fw.Violated, Key: vio.Key + "/oneonone", What: vio.What + fmt.Sprintf(" (concurrent Connect calls: %v)", concurrentConnect), NonTrivial: true}
+	reconnects := 0
+	if c.Int("i", 0)%3 != 2 {
+		// the context given to Connect belongs to the store that asked for the channel, the channels belong
+		// to the instance: the store is closed, opened again and connects again
+		for r := 1; r <= 2; r++ {
+			cancelA()
+			time.Sleep(30 * time.Millisecond)
+			ctxA, cancelA = context.WithCancel(ctx)
+			if err := chA.Connect(ctxA, idB); err != nil {
+				return fw.Verdict{Status: fw.Inconclusive, What: "reconnect: " + err.Error()}
+			}
+			reconnects++
+			if bad := exchange(r); bad != nil {
+				return *bad
+			}
+		}
 	}
-	if vio := checkDelivery("B", emB.snapshot(), sentA, idA, idB); vio != nil {
-		return fw.Verdict{Status: fw.Violated, Key: vio.Key + "/oneonone", What: vio.What + fmt.Sprintf(" (concurrent Connect calls: %v)", concurrentConnect), NonTrivial: true}
-	}
+	v.Count("oneonone_reconnects_after_store_context_ended", int64(reconnects))
 	v.Count("oneonone_payloads_checked", int64(len(sentA)+len(sentB)))
 	v.Status = fw.Held
 	v.NonTrivial = len(sentA)+len(sentB) >= 5
